@@ -387,3 +387,6 @@ RULES = [
     ("C13.MERGELOOKUP", 4, rule_mergelookup),
     ("C13.BOUNDARIES", 2, rule_boundaries),
 ]
+
+from . import common as _common_purity
+RULES = RULES + _common_purity.purity_rules("C13")
